@@ -510,8 +510,9 @@ Theorem S_clean_storage_is_tree_semantics :
   Clean.Model.lookup (Clean.Model.remove CleanCorr.c_a st0) CleanCorr.c_ab = None /\
   Clean.Model.list_pure true st0 CleanCorr.c_a = Some [CleanCorr.c_ab] /\
   Clean.Model.stat_pure st0 CleanCorr.c_a = Clean.Model.StatDir /\
-  fst (Clean.Model.do_load CleanCorr.env0 CleanCorr.c_a (Clean.Model.St st0 [])) = Clean.Model.LErr /\
-  fst (Clean.Model.do_store CleanCorr.env0 CleanCorr.c_a CleanCorr.f0 (Clean.Model.St st0 [])) = false.
+  exists e : Clean.Model.env,
+    fst (Clean.Model.do_load e CleanCorr.c_a (CleanCorr.st_of st0)) = Clean.Model.LErr /\
+    fst (Clean.Model.do_store e CleanCorr.c_a CleanCorr.f0 (CleanCorr.st_of st0)) = false.
 Proof. exact CleanCorr.clean_storage_is_tree_semantics. Qed.
 
 (** ---------- (B) concurrent refinement: FileSys.Lts ==> atomic map ---------- *)
@@ -592,8 +593,9 @@ Proof. exact killed_store_took_effect. Qed.
     the temp file of a Store in flight is.  Lts side: once its temp name is gone the writer cannot
     rename any more, the Store can only end with an error and no effect. *)
 Example S_clean_deletes_temp_of_inflight_store :
-  Clean.Model.sto (Clean.Model.delete_old_staples (Clean.Model.Env [] [] None true) (fun _ => 0%Z)
-                     (Clean.Model.St [(CleanTemp.temp_key, CleanTemp.half_written)] [])) = [].
+  exists e : Clean.Model.env,
+    Clean.Model.sto (Clean.Model.delete_old_staples e (fun _ => 0%Z)
+                       (CleanCorr.st_of [(CleanTemp.temp_key, CleanTemp.half_written)])) = [].
 Proof. exact CleanTemp.clean_deletes_temp_of_inflight_store. Qed.
 Theorem S_cleaner_removes_temp_store_fails : forall s t k v tmp i, thr s t = WClosed k v tmp i ->
   let s1 := foreign_unlink_temp s tmp in
@@ -621,62 +623,70 @@ From CM Require Lib.Str Gen.Consts Cache.Model Cache.AMapFacts Cache.Proofs Cach
   Maintain.Model Maintain.Spec Maintain.Base Maintain.Inv Maintain.Proofs Handshake.Model
   Renewal.Model Renewal.Proofs Renewal.F64 Renewal.F64Proofs
   Issuance.Model Issuance.Proofs Issuance.Invariants Issuance.NoReissueTL Issuance.NoReissue
-  System.CacheLookup System.CacheMaintain System.CacheHandshake System.RenewMaintain System.RenewIssuance.
+  Lookup.ProofsX System.CacheLookup System.CacheLookupX System.CacheMaintain System.CacheHandshake System.RenewMaintain System.RenewIssuance.
 
 (** ====================================================================================
     Part 1.  C12 (Cache) ==> the precondition of C03 (Lookup)
     ==================================================================================== *)
 Module S34_CacheLookup.
 Import ListNotations.
-Import CM.Lib.Str CM.Gen.Consts CM.Cache.Model CM.Cache.AMapFacts CM.Cache.Proofs CM.Cache.Sched
-  CM.Lookup.Model CM.Lookup.Proofs CM.Lookup.Check CM.Lookup.SpecProofs CM.System.CacheLookup.
+Import CM.Lib.Str CM.Cache.Model CM.Cache.AMapFacts CM.Cache.Proofs CM.Cache.Sched
+  CM.Lookup.Model CM.Lookup.Proofs CM.Lookup.ProofsX CM.Lookup.Check CM.Lookup.SpecProofs
+  CM.System.CacheLookup CM.System.CacheLookupX.
 Open Scope nat_scope.
 
-(** C12's invariant is all C03 needs: on a cache state satisfying [Inv] every conclusion of C03's
-    handshake theorems holds ([HandshakeGuarantees]: the record of lookup_sound, answer_complete,
-    exact_preferred, first_listed_wins, ip_preferred_without_sni, unexpired_supported_preferred,
-    error_only_if_unlisted, spec_ok_of_model, and C12's exactness of getAllMatchingCerts).
-    Connects Cache.Proofs.Inv with Lookup.Proofs. *)
+(** Vocabulary (System.CacheLookup): C12's schedules run over [dstate] = the two maps with the
+    capacity configured at that moment (Cache.SetOptions is a step).  [dstate_after cap0 pool sched]
+    = the dstate after the scheduler ran [sched] on the threads [pool] from the empty cache with
+    capacity [cap0]; [dstate_at .. k] after the first k decisions; [state_after] / [state_at] their
+    maps.  [HandshakeGuarantees names_of cap s] = record of the conclusions of C03's theorems about
+    one cache state (lookup_sound, answer_complete, exact_preferred, first_listed_wins,
+    ip_preferred_without_sni, unexpired_supported_preferred, error_only_if_unlisted, exactness of
+    getAllMatchingCerts); [DGuarantees names_of d] = the same at the capacity [d_cap d] on [d_st d].
+    Neither Props/C03.v nor Props/C12.v has any of the statements of this part (C12_every_schedule
+    gives [DInv] only; C03 is stated for an abstract [Inv] state and, for lookup_sound alone, for
+    sequential fixed-capacity histories). *)
+
+(** C12's invariant is all C03 needs.  Connects Cache.Proofs.Inv with Lookup.Proofs. *)
 Theorem S_cache_invariant_gives_handshake_guarantees : forall names_of cap s,
   Inv names_of cap s -> HandshakeGuarantees names_of cap s.
 Proof. exact guarantees_of_inv. Qed.
 
-(** For EVERY pool of well-formed thread programs (C12's Sched vocabulary: the eight code paths
-    and any others) and EVERY schedule, the cache after the schedule gives every C03 guarantee.
-    Connects Cache.Sched (C12_every_schedule) with Lookup (all C03 theorems). *)
-Theorem S_handshake_guarantees_every_schedule : forall names_of cap pool sched,
-  wf_pool names_of pool -> HandshakeGuarantees names_of cap (state_after cap pool sched).
+(** For EVERY pool of well-formed thread programs (the code paths of C12, SetOptions, scans, and
+    any others) and EVERY schedule, the cache after the schedule gives every C03 guarantee, at
+    the capacity then configured.  Connects Cache.Sched (C12_every_schedule) with Lookup. *)
+Theorem S_handshake_guarantees_every_schedule : forall names_of cap0 pool sched,
+  wf_pool names_of pool -> DGuarantees names_of (dstate_after cap0 pool sched).
 Proof. exact guarantees_every_schedule. Qed.
 Print Assumptions S_handshake_guarantees_every_schedule.
 
 (** ... and at every instant of the schedule (after its first k decisions, for every k) *)
-Theorem S_handshake_guarantees_every_instant : forall names_of cap pool sched k,
-  wf_pool names_of pool -> HandshakeGuarantees names_of cap (state_at cap pool sched k).
+Theorem S_handshake_guarantees_every_instant : forall names_of cap0 pool sched k,
+  wf_pool names_of pool -> DGuarantees names_of (dstate_at cap0 pool sched k).
 Proof. exact guarantees_every_instant. Qed.
 
 (** ... from any state an earlier history / schedule left behind *)
-Theorem S_handshake_guarantees_schedule_from : forall names_of cap s pool sched,
-  Inv names_of cap s -> wf_pool names_of pool ->
-  HandshakeGuarantees names_of cap (fst (run_sched cap sched (s, pool))).
+Theorem S_handshake_guarantees_schedule_from : forall names_of d pool sched,
+  DInv names_of d -> wf_pool names_of pool ->
+  DGuarantees names_of (fst (run_sched sched (d, pool))).
 Proof. exact guarantees_schedule_from. Qed.
 
-(** the same for sequential histories of well-formed cache operations, at the end and at every
-    point (Props/C03.v lifts only lookup_sound to histories) *)
+(** the same for sequential histories: fixed capacity (end and every point), and histories that
+    also change the capacity / query / scan / stop *)
 Theorem S_handshake_guarantees_every_history : forall names_of cap ops,
   Forall (wf_op names_of) ops -> HandshakeGuarantees names_of cap (run cap init ops).
 Proof. exact guarantees_every_history. Qed.
 Theorem S_handshake_guarantees_every_point_of_history : forall names_of cap ops,
   Forall (wf_op names_of) ops -> Forall (HandshakeGuarantees names_of cap) (trace cap init ops).
 Proof. exact guarantees_every_point_of_history. Qed.
+Theorem S_handshake_guarantees_every_dhistory : forall names_of cap0 ops,
+  Forall (wf_dop names_of) ops -> DGuarantees names_of (drun (dinit cap0) ops).
+Proof. exact guarantees_every_dhistory. Qed.
 
 (** The record unpacked: one system-level theorem per C03 theorem, for every pool and schedule. *)
-
-(** C03_lookup_sound after every schedule: the answer is an error, or a certificate really in
-    the cache covering the name / listing the local IP / the default / the fallback name, or the
-    certificate just loaded in the almost-full branch *)
-Theorem S_lookup_sound_every_schedule : forall lower is_space sup valid names_of cap pool sched cfg sni ip e c,
+Theorem S_lookup_sound_every_schedule : forall lower is_space sup valid names_of cap0 pool sched cfg sni ip e c,
   wf_pool names_of pool ->
-  let s := state_after cap pool sched in
+  let d := dstate_after cap0 pool sched in let s := d_st d in let cap := d_cap d in
   lookup lower is_space sup valid s cap cfg sni ip e = ROk c ->
   let n := normalize lower is_space sni in
   (alookup (c_hash c) (cache s) = Some c /\
@@ -686,78 +696,119 @@ Theorem S_lookup_sound_every_schedule : forall lower is_space sup valid names_of
     (fallback_name cfg <> [] /\ In (normalize lower is_space (fallback_name cfg)) (c_names c)))) \/
   (almost_full cap (length (cache s)) = true /\ loaded e = Some c /\
    name_err e = false /\ qualifies e = true).
-Proof. intros until c. intros Hwf s. apply (hg_sound _ _ _ (guarantees_every_schedule names_of cap pool sched Hwf)). Qed.
+Proof. intros until c. intros Hwf d s cap. apply (hg_sound _ _ _ (guarantees_every_schedule names_of cap0 pool sched Hwf)). Qed.
 
-Theorem S_answer_complete_every_schedule : forall (complete : cert -> Prop) lower is_space sup valid names_of cap pool sched cfg sni ip e c,
+Theorem S_answer_complete_every_schedule : forall (complete : cert -> Prop) lower is_space sup valid names_of cap0 pool sched cfg sni ip e c,
   wf_pool names_of pool ->
-  let s := state_after cap pool sched in
+  let d := dstate_after cap0 pool sched in let s := d_st d in let cap := d_cap d in
   (forall h x, alookup h (cache s) = Some x -> complete x) ->
   (forall x, loaded e = Some x -> complete x) ->
   lookup lower is_space sup valid s cap cfg sni ip e = ROk c -> complete c.
-Proof. intros until c. intros Hwf s. apply (hg_complete _ _ _ (guarantees_every_schedule names_of cap pool sched Hwf)). Qed.
+Proof. intros until c. intros Hwf d s cap. apply (hg_complete _ _ _ (guarantees_every_schedule names_of cap0 pool sched Hwf)). Qed.
 
-Theorem S_exact_preferred_every_schedule : forall lower is_space sup valid names_of cap pool sched cfg sni ip e,
+Theorem S_exact_preferred_every_schedule : forall lower is_space sup valid names_of cap0 pool sched cfg sni ip e,
   wf_pool names_of pool ->
-  let s := state_after cap pool sched in
+  let d := dstate_after cap0 pool sched in let s := d_st d in let cap := d_cap d in
   let n := normalize lower is_space sni in
   n <> [] -> idx s n <> [] ->
   exists c, lookup lower is_space sup valid s cap cfg sni ip e = ROk c /\ In n (c_names c) /\
             In c (get_all_matching_certs s n).
-Proof. intros until e. intros Hwf s. apply (hg_exact _ _ _ (guarantees_every_schedule names_of cap pool sched Hwf)). Qed.
+Proof. intros until e. intros Hwf d s cap. apply (hg_exact _ _ _ (guarantees_every_schedule names_of cap0 pool sched Hwf)). Qed.
 
-Theorem S_first_listed_wins_every_schedule : forall lower is_space sup valid names_of cap pool sched cfg sni ip e
+Theorem S_first_listed_wins_every_schedule : forall lower is_space sup valid names_of cap0 pool sched cfg sni ip e
     (pre : list name) (m : name) (post : list name),
   wf_pool names_of pool ->
-  let s := state_after cap pool sched in
+  let d := dstate_after cap0 pool sched in let s := d_st d in let cap := d_cap d in
   let n := normalize lower is_space sni in
   n <> [] -> n :: wildcard_candidates n = pre ++ m :: post ->
   Forall (fun m' => idx s m' = []) pre -> idx s m <> [] ->
   exists c, lookup lower is_space sup valid s cap cfg sni ip e = ROk c /\
             In c (get_all_matching_certs s m) /\ In m (c_names c) /\
             ((exists c', In c' (get_all_matching_certs s m) /\ good sup valid c') -> good sup valid c).
-Proof. intros until post. intros Hwf s. apply (hg_first_listed _ _ _ (guarantees_every_schedule names_of cap pool sched Hwf)). Qed.
+Proof. intros until post. intros Hwf d s cap. apply (hg_first_listed _ _ _ (guarantees_every_schedule names_of cap0 pool sched Hwf)). Qed.
 
-Theorem S_ip_preferred_without_sni_every_schedule : forall lower is_space sup valid names_of cap pool sched cfg sni ip e,
+Theorem S_ip_preferred_without_sni_every_schedule : forall lower is_space sup valid names_of cap0 pool sched cfg sni ip e,
   wf_pool names_of pool ->
-  let s := state_after cap pool sched in
+  let d := dstate_after cap0 pool sched in let s := d_st d in let cap := d_cap d in
   normalize lower is_space sni = [] -> idx s ip <> [] ->
   exists c, lookup lower is_space sup valid s cap cfg sni ip e = ROk c /\ In ip (c_names c) /\
             In c (get_all_matching_certs s ip) /\
             ((exists c', In c' (get_all_matching_certs s ip) /\ good sup valid c') -> good sup valid c).
-Proof. intros until e. intros Hwf s. apply (hg_ip _ _ _ (guarantees_every_schedule names_of cap pool sched Hwf)). Qed.
+Proof. intros until e. intros Hwf d s cap. apply (hg_ip _ _ _ (guarantees_every_schedule names_of cap0 pool sched Hwf)). Qed.
 
-Theorem S_unexpired_supported_preferred_every_schedule : forall lower is_space sup valid names_of cap pool sched cfg sni ip c b v,
+Theorem S_unexpired_supported_preferred_every_schedule : forall lower is_space sup valid names_of cap0 pool sched cfg sni ip c b v,
   wf_pool names_of pool ->
-  let s := state_after cap pool sched in
+  let s := state_after cap0 pool sched in
   from_cache lower is_space sup valid s cfg sni ip = Some (c, b, v) ->
   In c (get_all_matching_certs s v) /\
   ((exists c', In c' (get_all_matching_certs s v) /\ good sup valid c') -> good sup valid c).
-Proof. intros until v. intros Hwf s. apply (hg_unexpired _ _ _ (guarantees_every_schedule names_of cap pool sched Hwf)). Qed.
+Proof. intros until v. intros Hwf s. apply (hg_unexpired _ _ _ (guarantees_every_schedule names_of cap0 pool sched Hwf)). Qed.
 
-Theorem S_error_only_if_unlisted_every_schedule : forall lower is_space sup valid names_of cap pool sched cfg sni ip e,
+Theorem S_error_only_if_unlisted_every_schedule : forall lower is_space sup valid names_of cap0 pool sched cfg sni ip e,
   wf_pool names_of pool ->
-  let s := state_after cap pool sched in
+  let d := dstate_after cap0 pool sched in let s := d_st d in let cap := d_cap d in
   lookup lower is_space sup valid s cap cfg sni ip e = RErr ->
   let n := normalize lower is_space sni in
   if is_nil n then idx s ip = []
   else Forall (fun m' => idx s m' = []) (n :: wildcard_candidates n).
-Proof. intros until e. intros Hwf s. apply (hg_error _ _ _ (guarantees_every_schedule names_of cap pool sched Hwf)). Qed.
+Proof. intros until e. intros Hwf d s cap. apply (hg_error _ _ _ (guarantees_every_schedule names_of cap0 pool sched Hwf)). Qed.
 
-(** C03_spec_ok_of_model: the run-time monitor of C03 accepts the model's answer on the cache any
-    schedule produces *)
-Theorem S_spec_ok_of_model_every_schedule : forall lower is_space names_of pool sched c,
+(** the extended C03 theorems (Lookup.ProofsX: storage, the almost-full load, custom selection
+    policies) on the cache any schedule produces *)
+Theorem S_lookup_sound_x_every_schedule : forall names_of cap0 pool sched, wf_pool names_of pool ->
+  forall lower is_space sup valid conn cfg sni ip e c s',
+  let d := dstate_after cap0 pool sched in let s := d_st d in let cap := d_cap d in
+  storage_wf (x_storage e) ->
+  lookup_x lower is_space (select_cert sup valid) conn s cap cfg sni ip e = (ROk c, s') ->
+  let n := normalize lower is_space sni in
+  (alookup (c_hash c) (cache s) = Some c /\
+   ((n <> [] /\ exists san, In san (c_names c) /\ covers san n) \/
+    (n = [] /\ conn = true /\ In ip (c_names c)) \/
+    (n = [] /\ default_name cfg <> [] /\ In (normalize lower is_space (default_name cfg)) (c_names c)) \/
+    (fallback_name cfg <> [] /\ In (normalize lower is_space (fallback_name cfg)) (c_names c)))) \/
+  (almost_full cap (length (cache s)) = true /\
+   exists nm x, hello_name lower is_space cfg ip (x_idna e) = Some nm /\
+                subject_qualifies is_space nm = true /\
+                load_from_storage (x_storage e) (x_broken e) nm = Some x /\ sd_servable x = true /\ c = sd_cert x /\
+                exists san, In san (c_names c) /\ covers san nm).
+Proof. exact lookup_sound_x_after_schedule. Qed.
+
+Theorem S_custom_selector_scope_every_schedule : forall names_of cap0 pool sched, wf_pool names_of pool ->
+  forall lower is_space sup valid p conn cfg sni ip e c s',
+  let d := dstate_after cap0 pool sched in let s := d_st d in let cap := d_cap d in
+  lookup_x lower is_space (sel_policy sup valid p) conn s cap cfg sni ip e = (ROk c, s') ->
+  (alookup (c_hash c) (cache s) = Some c /\
+   exists pre v b post, tried lower is_space conn cfg sni ip = pre ++ (v, b) :: post /\
+     Forall (fun q => sel_policy sup valid p s (fst q) = None) pre /\
+     sel_policy sup valid p s v = Some c /\
+     (p <> PDefault -> In c (choices_for s v))) \/
+  (exists x, load_ok lower is_space cap s cfg ip e x /\ sd_servable x = true /\ c = sd_cert x).
+Proof. exact custom_selector_scope_after_schedule. Qed.
+
+(** the handshake is itself a writer (the almost-full load): run as one step on the cache a
+    schedule produced it leaves C12's invariant -- and with it every guarantee -- intact *)
+Theorem S_lookup_after_schedule_preserves_invariant : forall names_of cap0 pool sched, wf_pool names_of pool ->
+  forall lower is_space sel conn cfg sni ip e,
+  let d := dstate_after cap0 pool sched in let s := d_st d in let cap := d_cap d in
+  (forall k x, alookup k (x_storage e) = Some x -> wf_cert names_of (sd_cert x)) ->
+  let s' := snd (lookup_x lower is_space sel conn s cap cfg sni ip e) in
+  Inv names_of cap s' /\ HandshakeGuarantees names_of cap s'.
+Proof. exact lookup_after_schedule_preserves_invariant. Qed.
+
+(** C03_spec_ok_of_model and C03_answer_among_all_matching: the run-time monitors of C03 accept
+    the model's answer on the cache any schedule produces *)
+Theorem S_spec_ok_of_model_every_schedule : forall lower is_space names_of cap0 pool sched c,
   wf_pool names_of pool ->
-  l_state c = state_after (l_cap c) pool sched ->
+  l_state c = state_after cap0 pool sched -> l_cap c = d_cap (dstate_after cap0 pool sched) ->
   (forall h x, alookup h (cache (l_state c)) = Some x -> at_complete (attr_get (l_attrs c) h) = true) ->
-  (forall lc, loaded (l_env c) = Some lc -> l_loaded_complete c = true) ->
-  spec_lookup lower is_space (with_obs c (obs_of c (run_lookup lower is_space c))) = true.
-Proof.
-  intros lower is_space names_of pool sched c Hwf Hs Hc Hl.
-  apply (hg_spec _ _ _ (guarantees_every_schedule names_of (l_cap c) pool sched Hwf)); auto.
-  rewrite <- Hs. exact Hc.
-Qed.
+  (forall h x, alookup h (cache (l_state c)) = Some x -> at_names (attr_get (l_attrs c) h) = c_names x) ->
+  (forall k x, alookup k (x_storage (l_envx c)) = Some x ->
+     alookup (c_hash (sd_cert x)) (l_stored_complete c) = Some true) ->
+  spec_lookup_o lower is_space c (obs_of c (fst (run_lookup lower is_space c))) = true /\
+  spec_amc_o lower is_space c (obs_of c (fst (run_lookup lower is_space c))) (amc_of lower is_space c) = true.
+Proof. exact spec_ok_after_schedule. Qed.
 
-(** the sequential-history forms Props/C03.v does not have (one shown unpacked; the others are
+(** the sequential-history forms Props/C03.v does not have (two shown unpacked; the others are
     the fields of [S_handshake_guarantees_every_history]) *)
 Theorem S_first_listed_wins_every_history : forall lower is_space sup valid names_of cap ops cfg sni ip e
     (pre : list name) (m : name) (post : list name),
@@ -780,20 +831,22 @@ Theorem S_error_only_if_unlisted_every_history : forall lower is_space sup valid
 Proof. intros until e. intros Hwf s. apply (hg_error _ _ _ (guarantees_every_history names_of cap ops Hwf)). Qed.
 
 (** The handshake's lookup is itself not atomic: every selectCert is its own read-locked
-    getAllMatchingCerts (handshake.go L121-163, cache.go L335).  [prog_from_cache] is
+    getAllMatchingCerts (handshake.go L121-163, cache.go L335).  (Upstream C12 now has the
+    analogous program for Cache.AllMatchingCertificates, [prog_all_matching]; the handshake's
+    getCertificateFromCache is not there, and C03 still reads one state.)  [prog_from_cache] is
     getCertificateFromCache as a thread program of C12's scheduler (one PReadName per
     selectCert); it is well formed, so C12's schedule theorems cover pools that contain
     handshakes ... *)
-Theorem S_lookup_is_a_wellformed_thread : forall lower is_space sup valid names_of cfg sni ip (K : answer -> prog),
+Theorem S_lookup_is_a_wellformed_thread : forall lower is_space sup valid names_of cfg sni ip (K : lk_answer -> prog),
   (forall r, wf_prog names_of (K r)) ->
   wf_prog names_of (prog_from_cache lower is_space sup valid cfg sni ip K).
 Proof. exact prog_from_cache_wf. Qed.
 
-(** ... what it hands to the rest of the handshake, when its j-th read sees the cache [st j]
-    (whatever other threads did in between), is [na_from_cache st] ... *)
-Theorem S_lookup_thread_computes : forall lower is_space sup valid cap (st : nat -> state) cfg sni ip (K : answer -> prog),
-  exists fuel, feed cap st 0 fuel (prog_from_cache lower is_space sup valid cfg sni ip K) =
-               K (na_from_cache lower is_space sup valid st cfg sni ip).
+(** ... what it hands to the rest of the handshake, when its j-th read sees the cache [dst j]
+    (whatever other threads did in between), is [na_from_cache] of those states ... *)
+Theorem S_lookup_thread_computes : forall lower is_space sup valid (dst : nat -> dstate) cfg sni ip (K : lk_answer -> prog),
+  exists fuel, feed dst 0 fuel (prog_from_cache lower is_space sup valid cfg sni ip K) =
+               K (na_from_cache lower is_space sup valid (fun j => d_st (dst j)) cfg sni ip).
 Proof. exact prog_from_cache_computes. Qed.
 
 (** ... which is C03's [from_cache] when nothing interleaves ... *)
@@ -802,15 +855,15 @@ Theorem S_nonatomic_lookup_is_C03_when_atomic : forall lower is_space sup valid 
 Proof. exact na_from_cache_atomic. Qed.
 
 (** ... and is sound under every interleaving: with the reads at arbitrary instants [t j] of any
-    schedule of any well-formed pool, the answer was really in the cache, listed under the name
-    [v] it was found under, at the instant of the read that found it ([found_at]); [v] covers the
-    SNI / is the local IP / the default / the fallback name.  Connects Cache.Sched with
-    Lookup.Model. *)
-Theorem S_nonatomic_lookup_sound_every_schedule : forall lower is_space sup valid names_of cap pool sched (t : nat -> nat) cfg sni ip c b v,
+    schedule of any well-formed pool (the capacity may change in between), the answer was really
+    in the cache, listed under the name [v] it was found under, at the instant of the read that
+    found it ([found_at]); [v] covers the SNI / is the local IP / the default / the fallback name.
+    Connects Cache.Sched with Lookup.Model. *)
+Theorem S_nonatomic_lookup_sound_every_schedule : forall lower is_space sup valid names_of cap0 pool sched (t : nat -> nat) cfg sni ip c b v,
   wf_pool names_of pool ->
-  na_from_cache lower is_space sup valid (fun j => state_at cap pool sched (t j)) cfg sni ip = Some (c, b, v) ->
+  na_from_cache lower is_space sup valid (fun j => state_at cap0 pool sched (t j)) cfg sni ip = Some (c, b, v) ->
   let n := normalize lower is_space sni in
-  exists j, found_at sup valid (fun j => state_at cap pool sched (t j)) j c v /\
+  exists j, found_at sup valid (fun j => state_at cap0 pool sched (t j)) j c v /\
     ((b = true /\ n <> [] /\ covers v n) \/
      (b = true /\ n = [] /\ v = ip) \/
      (b = false /\ n = [] /\ default_name cfg <> [] /\ v = normalize lower is_space (default_name cfg)) \/
@@ -835,18 +888,18 @@ Example S_cache_lookup_satisfiable :
   map (fun k => akeys (cache (state_at 0 x_pool x_sched k))) (seq 0 9) =
     [[]; [[101; 49]]; [[101; 49]]; [[101; 49]]; [[101; 49]; [119]]; [[101; 49]; [119]];
      [[119]; [101; 50]]; [[119]; [101; 50]; [102]]; [[119]; [101; 50]; [102]]]%N /\
-  x_lookup 3 (Config [] []) [32; 65; 46; 120; 32]%N = ROk x_e1 /\
-  x_lookup 8 (Config [] []) [32; 65; 46; 120; 32]%N = ROk x_e2 /\
-  x_lookup 3 (Config [] []) [113; 46; 120]%N = RErr /\
-  x_lookup 8 (Config [] x_fb) [] = ROk (set_ocsp x_w 7) /\
+  x_lookup 3 (x_cfg [] []) [32; 65; 46; 120; 32]%N = ROk x_e1 /\
+  x_lookup 8 (x_cfg [] []) [32; 65; 46; 120; 32]%N = ROk x_e2 /\
+  x_lookup 3 (x_cfg [] []) [113; 46; 120]%N = RErr /\
+  x_lookup 8 (x_cfg [] x_fb) [] = ROk (set_ocsp x_w 7) /\
   na_from_cache ascii_lower ascii_space (fun _ => true) x_valid
-    (fun j => state_at 0 x_pool x_sched (match j with 0 => 0 | _ => 6 end)) (Config [] []) x_ax x_ip
+    (fun j => state_at 0 x_pool x_sched (match j with 0 => 0 | _ => 6 end)) (x_cfg [] []) x_ax x_ip
     = Some (x_w, true, x_wx) /\
-  from_cache ascii_lower ascii_space (fun _ => true) x_valid (state_at 0 x_pool x_sched 6) (Config [] []) x_ax x_ip
+  from_cache ascii_lower ascii_space (fun _ => true) x_valid (state_at 0 x_pool x_sched 6) (x_cfg [] []) x_ax x_ip
     = Some (x_e2, true, x_ax).
 Proof. pose proof system_hypotheses_satisfiable as H. intuition. Qed.
 (** all theorems and examples of this module *)
-Definition S34_CacheLookup_all := (S_cache_invariant_gives_handshake_guarantees, S_handshake_guarantees_every_schedule, S_handshake_guarantees_every_instant, S_handshake_guarantees_schedule_from, S_handshake_guarantees_every_history, S_handshake_guarantees_every_point_of_history, S_lookup_sound_every_schedule, S_answer_complete_every_schedule, S_exact_preferred_every_schedule, S_first_listed_wins_every_schedule, S_ip_preferred_without_sni_every_schedule, S_unexpired_supported_preferred_every_schedule, S_error_only_if_unlisted_every_schedule, S_spec_ok_of_model_every_schedule, S_first_listed_wins_every_history, S_error_only_if_unlisted_every_history, S_lookup_is_a_wellformed_thread, S_lookup_thread_computes, S_nonatomic_lookup_is_C03_when_atomic, S_nonatomic_lookup_sound_every_schedule, S_nonatomic_exact_preferred, S_cache_lookup_satisfiable).
+Definition S34_CacheLookup_all := (S_cache_invariant_gives_handshake_guarantees, S_handshake_guarantees_every_schedule, S_handshake_guarantees_every_instant, S_handshake_guarantees_schedule_from, S_handshake_guarantees_every_history, S_handshake_guarantees_every_point_of_history, S_handshake_guarantees_every_dhistory, S_lookup_sound_every_schedule, S_answer_complete_every_schedule, S_exact_preferred_every_schedule, S_first_listed_wins_every_schedule, S_ip_preferred_without_sni_every_schedule, S_unexpired_supported_preferred_every_schedule, S_error_only_if_unlisted_every_schedule, S_lookup_sound_x_every_schedule, S_custom_selector_scope_every_schedule, S_lookup_after_schedule_preserves_invariant, S_spec_ok_of_model_every_schedule, S_first_listed_wins_every_history, S_error_only_if_unlisted_every_history, S_lookup_is_a_wellformed_thread, S_lookup_thread_computes, S_nonatomic_lookup_is_C03_when_atomic, S_nonatomic_lookup_sound_every_schedule, S_nonatomic_exact_preferred, S_cache_lookup_satisfiable).
 Print Assumptions S34_CacheLookup_all.
 End S34_CacheLookup.
 
@@ -931,9 +984,8 @@ Example S_maintain_cache_refinement_satisfiable :
   m_served 0 l = None /\ get_all_matching_certs s (en0 0) = [].
 Proof. exact refinement_run. Qed.
 
-(** The on-demand handshake model of C02: its cache operations are C12's (cache_update is the
-    guarded write-back of handshakeMaintenance; cache_add only below capacity: the model says
-    evictions are not modelled) ... *)
+(** The on-demand handshake model of C02: its cache operations are C12's (cache_add only below capacity: the
+    model says evictions are not modelled; cache_update: see below) ... *)
 Theorem S_handshake_cache_find_refined : forall (eh : N -> hash),
   (forall a b, eh a = eh b -> a = b) ->
   forall names_of cap w s id, RH eh names_of cap w s ->
@@ -965,8 +1017,25 @@ Theorem S_handshake_cache_update_refined : forall (eh : N -> hash),
   (forall a b, eh a = eh b -> a = b) ->
   forall names_of cap w s c,
   RH eh names_of cap w s -> hok eh names_of c ->
-  RH eh names_of cap (Handshake.Model.cache_update c w) (write_back (hconc eh c) s).
+  RH eh names_of cap (Handshake.Model.cache_update c w) (write_back_whole_copy (hconc eh c) s).
 Proof. exact refine_h_update. Qed.
+(** ... which is C12's one-field write-back of today's code when the copy differs from the cached
+    entry only in its staple ([write_back] = set_ocsp_at: handshakeMaintenance) or its ARI
+    ([set_ari_at]: updateARI) *)
+Theorem S_handshake_cache_update_staple_refined : forall (eh : N -> hash),
+  (forall a b, eh a = eh b -> a = b) ->
+  forall names_of cap w s c x,
+  RH eh names_of cap w s -> hok eh names_of c -> Handshake.Model.cache_find (h_id c) w = Some x ->
+  hconc eh c = set_ocsp (hconc eh x) (c_ocsp (hconc eh c)) ->
+  RH eh names_of cap (Handshake.Model.cache_update c w) (write_back (hconc eh c) s).
+Proof. exact refine_h_update_staple. Qed.
+Theorem S_handshake_cache_update_ari_refined : forall (eh : N -> hash),
+  (forall a b, eh a = eh b -> a = b) ->
+  forall names_of cap w s c x v,
+  RH eh names_of cap w s -> hok eh names_of c -> Handshake.Model.cache_find (h_id c) w = Some x ->
+  hconc eh c = set_ari (hconc eh x) v ->
+  RH eh names_of cap (Handshake.Model.cache_update c w) (set_ari_at (eh (h_id c)) v s).
+Proof. exact refine_h_update_ari. Qed.
 
 (** ... and its ORACLE [h_hit] ("certificate selected from the cache by
     getCertificateFromCache"), when instantiated by what C03's [from_cache] answers on the C12
@@ -993,12 +1062,12 @@ Example S_handshake_cache_refinement_satisfiable :
              (replace_cert 3 (hconc heh hx_c0) (hconc heh hx_c2) None
                (add_cert 3 (hconc heh hx_c1) None (add_cert 3 (hconc heh hx_c0) None init))) in
   RH heh hx_names_of 3 w s /\
-  from_cache ascii_lower ascii_space (fun _ => true) (fun _ => true) s (Config [] []) hx_ax [] =
+  from_cache ascii_lower ascii_space (fun _ => true) (fun _ => true) s {| default_name := []; fallback_name := [] |} hx_ax [] =
     Some (hconc heh hx_c2, true, hx_ax) /\
   Handshake.Model.cache_find 2 w = Some hx_c2.
 Proof. pose proof handshake_cache_run as H. cbv zeta in *. intuition. Qed.
 (** all theorems and examples of this module *)
-Definition S34_CacheViews_all := (S_maintain_cache_add_refined, S_maintain_cache_remove_refined, S_maintain_cache_replace_refined, S_maintain_resolve_is_index_lookup, S_maintain_resolve_permutation, S_maintain_served_is_index_lookup, S_capacity_breaks_maintain_cache_refuted, S_maintain_cache_refinement_satisfiable, S_handshake_cache_find_refined, S_handshake_cache_add_refined, S_handshake_cache_remove_refined, S_handshake_cache_replace_refined, S_handshake_cache_update_refined, S_handshake_hit_oracle_from_C03, S_handshake_cache_refinement_satisfiable).
+Definition S34_CacheViews_all := (S_maintain_cache_add_refined, S_maintain_cache_remove_refined, S_maintain_cache_replace_refined, S_maintain_resolve_is_index_lookup, S_maintain_resolve_permutation, S_maintain_served_is_index_lookup, S_capacity_breaks_maintain_cache_refuted, S_maintain_cache_refinement_satisfiable, S_handshake_cache_find_refined, S_handshake_cache_add_refined, S_handshake_cache_remove_refined, S_handshake_cache_replace_refined, S_handshake_cache_update_refined, S_handshake_cache_update_staple_refined, S_handshake_cache_update_ari_refined, S_handshake_hit_oracle_from_C03, S_handshake_cache_refinement_satisfiable).
 Print Assumptions S34_CacheViews_all.
 End S34_CacheViews.
 
@@ -1196,7 +1265,7 @@ Example S_renew_maintain_satisfiable :
   due_reason (x_env 0) (x_draw 0) t61 /\ nothing_due (x_env 1) (x_draw 1) t61 /\
   (forall k, next (x_s []) <= k -> fresh_inputs (x_env k) t61 /\ admissible (x_env k) (x_draw k)) /\
   (let s' := run x_od false (x_s []) [PassScan 1; PassAct 1; JobStep 0 0; JobStep 0 0; JobStep 0 0] in
-   cache s' = [xc1; xc3; Cert 4 0 [] false true] /\ issued s' = [0]).
+   cache s' = [xc1; xc3; new_cert false (x_s []) 0] /\ issued s' = [0]).
 Proof.
   pose proof x_verdicts as (H1 & _ & H3 & _). pose proof x_renewed as H. cbv zeta in H.
   split; [exact H1|]. split; [exact H3|]. split; [apply x_s_wf|]. split; [apply x_s_timed|].
@@ -1244,7 +1313,7 @@ Theorem S_no_reissue_after_save_of_fresh_by_C04 : forall scale, scale_spec scale
 Proof. exact no_reissue_after_save_of_fresh_by_C04. Qed.
 
 Example S_renew_issuance_satisfiable :
-  let ce := Cert 7 1 (due_b scale_f64 (i90 (50 * day)) 0 t61) in
+  let ce := {| c_id := 7; c_kid := 1; c_due := due_b scale_f64 (i90 (50 * day)) 0 t61 |} in
   c_due ce = false /\ nothing_due (i90 (50 * day)) 0 t61 /\
   fresh_inputs (i90 t61) t61 /\ admissible (i90 t61) 0 /\
   due_b scale_f64 (i90 t61) 0 t61 = false /\ due_b scale_f64 (i90 0) 0 t61 = true.
@@ -1896,7 +1965,7 @@ From CM Require Gen.Consts Cache.Model Cache.AMapFacts Cache.Proofs Lookup.Model
   Handshake.Model Handshake.Proofs SingleFlight.Model SingleFlight.Proofs
   Renewal.Model Renewal.Proofs Renewal.F64 Renewal.F64Proofs Props.C02
   System.CacheHandshake System.RenewMaintain
-  System.HandshakeCompose System.HandshakeComposeSF System.HandshakeComposeRenew.
+  System.HandshakeComposeBase System.HandshakeCompose System.HandshakeComposeSF System.HandshakeComposeRenew.
 From Coq Require Import List ZArith NArith Bool Arith.
 
 Module S7.
@@ -1915,7 +1984,7 @@ Import ListNotations.
     SubjectQualifiesForCert / what loadCertFromStorage yields when the cache is almost full" as oracles
     ([env]); Handshake's [handshake] COMPUTES those and takes the cache lookup's answer as an oracle
     ([h_hit], [h_default]).  With each oracle instantiated by what the other model computes
-    ([hello_of (from_cache ..)], [env_of w h]) and cfg.OnDemand == nil, the two models give the same
+    ([hello_of (from_cache ..)], [env_of_handshake w h]) and cfg.OnDemand == nil, the two models give the same
     answer — the same certificate, or both an error — for every cache content, ClientHello,
     configuration, storage content and capacity. *)
 Theorem S_od_off_handshake_is_lookup :
@@ -1926,7 +1995,7 @@ Theorem S_od_off_handshake_is_lookup :
   let fc := from_cache lower is_space sup valid s cfg sni ip in
   let h := hello_of dh fc nm m ok vanish in
   H.handshake is_space w h = (own, kids, res, w') ->
-  res_rel eh res (lookup lower is_space sup valid s cap cfg sni ip (env_of eh is_space w h)).
+  res_rel eh res (lookup lower is_space sup valid s cap cfg sni ip (env_of_handshake eh is_space w h)).
 Proof. intros eh dh Hd names_of. exact (od_off_handshake_is_lookup eh dh Hd names_of). Qed.
 Print Assumptions S_od_off_handshake_is_lookup.
 
@@ -2389,7 +2458,7 @@ Theorem S_retry_loop_decision : forall iv maxd pick0 c rest t idx k, (t < maxd)%
      if retries (R.c_out c) then
        if (t' <? maxd)%Z then
          let '(l, r, te) := R.retry_loop iv maxd None pick0 rest t' (R.next_idx iv idx) (k + 1)%Z in (a :: l, r, te)
-       else ([a], R.RGiveUpNil, t')
+       else ([a], R.RGiveUp, t')
      else ([a], stop_result (R.c_out c), t')).
 Proof. exact retry_loop_decision. Qed.
 
@@ -2408,11 +2477,14 @@ Theorem S_wait_exit_agrees : forall th b p, I.tpc th = I.PWait -> I.norm_pc th b
   (b = true /\ p = I.body_start th) \/ (b = false /\ I.canc th = true /\ p = I.PUnlock I.RErr).
 Proof. exact wait_exit_agrees. Qed.
 
-(** partial: the 30-day horizon of doWithRetry ("giving up", returns nil) is NOT in Issuance *)
+(** partial: the 30-day horizon of doWithRetry ("final attempt; giving up": since 9155753 it returns the
+    last error - C19's [returns_nil] -, before it returned nil) is NOT in Issuance: the missing exit
+    is an error return ([PUnlock RErr]) *)
 Theorem S_horizon_only_in_retry_partial :
   (forall th, I.is_async (I.cfg th) = true -> I.tpc (I.after_attempt th I.EPlain) = I.PWait) /\
   (exists iv maxd calls atts te, iv <> [] /\ R.all_positive iv = true /\
-     R.do_with_retry iv maxd None false calls = (atts, R.RGiveUpNil, te) /\ Forall RP.plain atts /\ atts <> []).
+     R.do_with_retry iv maxd None false calls = (atts, R.RGiveUp, te) /\
+     res_of_result R.RGiveUp = I.RErr /\ Forall RP.plain atts /\ atts <> []).
 Proof. exact horizon_only_in_retry_partial. Qed.
 
 (** Retry.Model (doWithRetry) vs Maintain.Model: one model step = one attempt under the lock; the job
@@ -2448,8 +2520,9 @@ Example S_ex_schedulable :
     length (R.held s) <= 3 /\ R.queue s = [R.Job 2 (rn0 2); R.Job 3 []] /\ 2 <= R.idle s.
 Proof. exact ex_schedulable. Qed.
 Example S_ex_maintain_attempt :
-  let c := M.Cert 5 1 [] true true in
-  let s := M.State [(1, c)] [c] [M.Job 1 M.JRenew (Some c) M.Locked] [] [1] [] [] 6 false in
+  let c := {| M.cid := 5; M.chead := 1; M.crest := []; M.cdue := true; M.cman := true |} in
+  let s := {| M.store := [(1, c)]; M.cache := [c]; M.jobs := [M.Job 1 M.JRenew (Some c) M.Locked]; M.passes := [];
+              M.failing := [1]; M.issued := []; M.failed := []; M.next := 6; M.lasterr := false |} in
   M.split_job 1 0 (M.jobs s) = Some ([], M.Job 1 M.JRenew (Some c) M.Locked, []) /\
   M.stored (M.store s) 1 = Some c /\ M.is_failing s 1 = true /\
   M.failed (M.job_step false s 1 0) = [1].
@@ -2661,7 +2734,8 @@ Theorem S_one_new_account_needs_no_fault_refuted :
 Proof. exact one_new_account_needs_no_fault_refuted. Qed.
 
 (** Account.Model ==> Issuance.Model on the overlap, thread level: every operation of an Account thread
-    outside the order / recreate loop, with or without an injected fault, is the Issuance thread
+    outside the order / recreate / compare-and-delete path ([overlap_pc] = [classify], a catch-all), with or
+    without an injected fault (since the re-base also a failing Unlock: logged and ignored by both), is the Issuance thread
     taking the labels [op_labels]; it performs exactly the operations [op_ops] (same keys, same order)
     and reaches the related pc, file contents and lock state *)
 Theorem S_account_op_simulated : forall lk sA t f sA' th sh0,
@@ -2680,7 +2754,8 @@ Proof. exact account_op_simulated. Qed.
     [AP.I_lock] is C20's own lock invariant (holds in every reachable state of Account.Model). *)
 Theorem S_account_step_simulated : forall lk sA sI l sA',
   RelG lk sA sI -> AP.I_lock sA -> overlap_label sA sI l -> A.step sA l = Some sA' ->
-  exists ls sI' evs, run sI ls = Some (sI', evs) /\ map e_op evs = label_ops lk sA l /\ RelG lk sA' sI'.
+  exists ls sI' evs, run sI ls = Some (sI', evs) /\ map e_op evs = label_ops lk sA l /\ RelG lk sA' sI' /\
+    cas_of sI' = cas_of sI.
 Proof. exact account_step_simulated. Qed.
 
 (** ... and history level: every history of Account.Model that stays in the overlap ([ovrun]: starts of
@@ -2706,10 +2781,8 @@ Proof. exact RelG_init. Qed.
 Example S_ex_account_simulated :
   let sI0 := init_state [acfg 7 3; acfg 7 3] (fun _ => None) in
   RelG 7 A.init sI0 /\ AP.I_lock A.init /\ overlap_label A.init sI0 (A.Start 0 3) /\
-  exists sA1, A.step A.init (A.Start 0 3) = Some sA1 /\ RelG 7 sA1 sI0 /\ AP.I_lock sA1 /\
-    overlap_label sA1 sI0 (A.Op 0 false) /\
-    exists sA2 ls sI2 evs, A.step sA1 (A.Op 0 false) = Some sA2 /\ run sI0 ls = Some (sI2, evs) /\
-      map e_op evs = [OLoad (SK 3 KMeta)] /\ RelG 7 sA2 sI2 /\ A.t_pc (A.thr sA2 0) = A.WantLock.
+  exists sA1 ls sI1 evs, A.step A.init (A.Start 0 3) = Some sA1 /\ run sI0 ls = Some (sI1, evs) /\
+    RelG 7 sA1 sI1 /\ A.t_pc (A.thr sA1 0) = A.LoadReg false.
 Proof. exact ex_account_simulated. Qed.
 Example S_ex_account_history :
   let ls := [A.Start 0 3; A.Op 0 false; A.Start 1 3; A.Op 0 false; A.Op 1 false; A.Op 0 false; A.Op 0 false;
